@@ -97,11 +97,11 @@ def uptoFork (env : PEnv) (pre : MatchList) (mh : Match) (st : ExecSt) : Prog At
 
 /-- What `matches_exec` does after `uptoFork`: the cleanup of an abandoned list, or `exec()` (whose first
 call is the `fork`), the close of the descriptor, and the rest of the list. -/
-def afterFork (env : PEnv) (post : MatchList) : AtFork → Prog (ExecSt × Bool)
+def afterFork (env : PEnv) (argv : List Bytes) (post : MatchList) : AtFork → Prog (ExecSt × Bool)
   | .abandoned st' => (if st'.chsrc = true then maildirClose st'.src else .ret ()).bind fun _ => .ret (st', true)
   | .nofd st' => (if st'.chsrc = true then maildirClose st'.src else .ret ()).bind fun _ => .ret (st', true)
   | .fork st' fd =>
-    (execP (some fd)).bind fun rc =>
+    (execP argv (some fd)).bind fun rc =>
       .call (.close fd) fun _ =>
         if (rc != 0) = true then (if st'.chsrc = true then maildirClose st'.src else .ret ()).bind fun _ => .ret (st', true)
         else matchesExec env post st'
